@@ -53,6 +53,7 @@ type Job struct {
 	// replay
 	Scenario string  `json:"scenario"`
 	Seed     uint64  `json:"seed"`
+	RunIndex int     `json:"run_index"`
 	Choices  []int32 `json:"choices"`
 	UseSeed  bool    `json:"use_seed"` // replay from seed instead of choices (crash replays)
 	Progress string  `json:"progress"` // file receiving the id of the run in progress
@@ -124,6 +125,7 @@ func runSeed(base uint64, prop string, idx int) uint64 {
 
 type runOpts struct {
 	keepTrace, keepLabels bool
+	runIndex              int
 }
 
 // harnessPanic is set when the root panicked with something that is not an oracle abort.
@@ -147,6 +149,7 @@ func execute(t *testing.T, sc *Scenario, seed uint64, feed []int32, useFeed bool
 		synctest.Test(t, func(t *testing.T) {
 			s = newSim(sc.Prop, sc.Name, seed, feed, useFeed, known)
 			s.KeepTrace, s.KeepLabels = o.keepTrace, o.keepLabels
+			s.RunIndex = o.runIndex
 			s.parkSignal = make(chan struct{}, 1)
 			s.rootActive = true
 			s.rootGoid = goid()
@@ -220,7 +223,7 @@ func trimZeros(c []int32) []int32 {
 }
 
 // shrink minimises a failing choice vector while the same oracle tag (and key) keeps firing.
-func shrink(t *testing.T, sc *Scenario, seed uint64, base []int32, want Violation, known []KnownSpec, maxRuns int, deadline time.Time) ([]int32, int) {
+func shrink(t *testing.T, sc *Scenario, seed uint64, base []int32, want Violation, known []KnownSpec, maxRuns int, deadline time.Time, runIndex int) ([]int32, int) {
 	runs := 0
 	try := func(c []int32) ([]int32, bool) {
 		if runs >= maxRuns || time.Now().After(deadline) {
@@ -228,7 +231,7 @@ func shrink(t *testing.T, sc *Scenario, seed uint64, base []int32, want Violatio
 		}
 		runs++
 		for attempt := 0; attempt < 2; attempt++ {
-			r := execute(t, sc, seed, c, true, known, runOpts{})
+			r := execute(t, sc, seed, c, true, known, runOpts{runIndex: runIndex})
 			if r.s != nil && r.harnessPanic == "" && r.s.Viol != nil && r.s.Viol.Tag == want.Tag && r.s.Viol.Key == want.Key {
 				return trimZeros(r.s.Choices), true
 			}
@@ -397,7 +400,7 @@ func explore(t *testing.T, job *Job, scs []*Scenario) {
 			line := fmt.Sprintf("%-20s %020d %010d\n", sc.Name, seed, idx)
 			_, _ = prog.WriteAt([]byte(line), 0)
 		}
-		r := execute(t, sc, seed, nil, false, job.Known, runOpts{})
+		r := execute(t, sc, seed, nil, false, job.Known, runOpts{runIndex: idx})
 		if r.harnessPanic != "" || r.s == nil {
 			out.HarnessErr = fmt.Sprintf("scenario %s seed %d: %s", sc.Name, seed, r.harnessPanic)
 			break
@@ -433,15 +436,15 @@ func explore(t *testing.T, job *Job, scs []*Scenario) {
 		}
 		// determinism spot check: re-execute from the recorded choice vector
 		if k%64 == 5 && s.Viol == nil {
-			r2 := execute(t, sc, seed, s.Choices, true, job.Known, runOpts{})
+			r2 := execute(t, sc, seed, s.Choices, true, job.Known, runOpts{runIndex: idx})
 			out.DetChecked++
 			if r2.s == nil || r2.s.hash != s.hash {
 				out.DetMismatch++
 				if out.DetExample == nil {
-					a := execute(t, sc, seed, s.Choices, true, job.Known, runOpts{keepTrace: true})
-					b := execute(t, sc, seed, s.Choices, true, job.Known, runOpts{keepTrace: true})
+					a := execute(t, sc, seed, s.Choices, true, job.Known, runOpts{keepTrace: true, runIndex: idx})
+					b := execute(t, sc, seed, s.Choices, true, job.Known, runOpts{keepTrace: true, runIndex: idx})
 					for tries := 0; tries < 20 && a.s != nil && b.s != nil && a.s.hash == b.s.hash; tries++ {
-						b = execute(t, sc, seed, s.Choices, true, job.Known, runOpts{keepTrace: true})
+						b = execute(t, sc, seed, s.Choices, true, job.Known, runOpts{keepTrace: true, runIndex: idx})
 					}
 					if a.s != nil && b.s != nil {
 						ta, tb := a.s.traceAll, b.s.traceAll
@@ -477,10 +480,10 @@ func explore(t *testing.T, job *Job, scs []*Scenario) {
 			choices := trimZeros(s.Choices)
 			if !isKnown {
 				sd := time.Now().Add(40 * time.Second)
-				choices, f.ShrinkRun = shrink(t, sc, seed, choices, v, job.Known, 400, sd)
+				choices, f.ShrinkRun = shrink(t, sc, seed, choices, v, job.Known, 400, sd, idx)
 			}
 			// final in-process replay with full labels and trace
-			rr := execute(t, sc, seed, choices, true, job.Known, runOpts{keepTrace: false, keepLabels: true})
+			rr := execute(t, sc, seed, choices, true, job.Known, runOpts{keepTrace: false, keepLabels: true, runIndex: idx})
 			if rr.s != nil {
 				var got *Violation
 				if isKnown {
@@ -559,7 +562,7 @@ func replay(t *testing.T, job *Job, scs []*Scenario) {
 	}
 	out := &ReplayOut{}
 	for a := 1; a <= attempts; a++ {
-		r := execute(t, sc, job.Seed, job.Choices, !job.UseSeed, job.Known, runOpts{keepTrace: true, keepLabels: true})
+		r := execute(t, sc, job.Seed, job.Choices, !job.UseSeed, job.Known, runOpts{keepTrace: true, keepLabels: true, runIndex: job.RunIndex})
 		out.Attempts = a
 		if r.harnessPanic != "" || r.s == nil {
 			out.HarnessErr = r.harnessPanic
